@@ -8,7 +8,7 @@ for d in sorted(glob.glob('/verif/seeded/*')):
     if only and sid not in only: continue
     m = json.load(open(d + '/meta.json'))
     prev = set(m.get('what_i_ran', {}).get('caught_by', [])) | set(m.get('matrix', {}).get('caught_by', []))
-    checks = sorted({m['property'], 'C11'} | prev)
+    checks = sorted({m['property'], 'C11'} | prev | set(m.get('extra_checks', [])))
     cw = f"/tmp/wt/mx_{sid}"
     subprocess.run(f"git -C /repo worktree remove --force {cw}", shell=True, capture_output=True)
     assert subprocess.run(f"/verif/tools/mkwt.sh mx_{sid}", shell=True, capture_output=True).returncode == 0
